@@ -103,7 +103,7 @@ Definition probe_fail (c : ccfg) (seen : list (call * answer)) (p : c15probe) : 
       let body := JObj [("parent", pb_parent p); ("related", wire)] in
       orelse (view_fail c (pb_cache p) all body)
              (match rules_in_effect all (parent_key (pb_parent p)) with
-              | Some rules => if existsb (rule_bad (p_namespaced c) (pb_parent p)) (some_rules rules)
+              | Some rules => if existsb (entry_bad (p_namespaced c) (pb_parent p)) rules
                               then Some "invalid-rule-is-not-an-error" else None
               | None => None end)
   end.
@@ -181,7 +181,8 @@ Definition C15_check (c : c15case) : verdict :=
   | Some w => PROPFAIL w
   | None =>
       match find (fun w => negb (snd w)) (c15_wakes c) with
-      | Some w => PROPFAIL ("related-object-change-does-not-wake-parent:" ++ fst w)%string
+      | Some w => if String.eqb (fst w) "informer-handler-panicked" then PROPFAIL "panic"
+                  else PROPFAIL ("related-object-change-does-not-wake-parent:" ++ fst w)%string
       | None =>
           if negb (forallb (fun b => forallb (fun s => forallb (fun e => saneb (e_call e) (e_ans e)) (step_events s)) b)
                            (c15_builds c))
@@ -223,6 +224,12 @@ Definition C15m_check (c : c15m_case) : verdict :=
   | Some r =>
       if negb (m_decoded c) then DIVERGE "rule-decoding" else
       if negb (rules_in_domain [r]) then SKIP "label syntax outside the modelled domain" else
+      (* a nil rule: GetRelatedObjects refuses it and findRelatedParents skips it, so neither function is
+         reached with nil any more; called directly both still dereference it, as the model says *)
+      if match r with None => true | Some _ => false end then
+        (if m_verdict_eqb (m_match c) MPanic && String.eqb (m_sel c) "panic"
+         then SKIP "nil rule: precondition of matchesRelatedRule violated (its callers filter nil)"
+         else DIVERGE "nil-rule") else
       (* property on the implementation first *)
       match m_match c with
       | MPanic => PROPFAIL "panic"
